@@ -329,6 +329,8 @@ func plotErrClass(fn *ssa.Function, call *ssa.Call) bool {
 func checkC10(c *Ctx) Meta {
 	c.Rule("C10-ORDER", "in both plotting passes: window write -> Sync(data) -> UpdateCheckpoint -> Sync(checkpoint) on every path, every normal exit passes the final checkpoint (derived from the volume), each window is written at the offset of its own start point", 10)
 	c.Rule("C10-ERR", "no storage error on the plotting path is dropped: Sync, WriteAt, Seek, Read, WriteToWriter, UpdateCheckpoint results reach the pass's return as a non-nil error", 14)
+	c.Rule("C10-STOP", "an interrupted step is never taken for a completed one: on the plotting path the branch taken when the stop channel fires returns a provably non-nil error", 3)
+	c.Rule("C10-FRESH", "every window is computed into a freshly allocated (zeroed) cache: Update always reallocates, makeAvailableMemory always updates on success, every window write is preceded by it within its own round", 4)
 	c.Rule("C10-REMOVE", "map A is removed only after both passes returned nil (whose every normal exit has passed the final checkpoint and its Sync)", 2)
 	c.Rule("C10-READY", "readiness is derived from B's checkpoint: HashMapB.Progress compares checkpoint with volume; MassDBV1.Progress forwards it; NewWorkSpace stores Ready only under that flag; OpenDB loads map A whenever B is not final", 4)
 
@@ -351,6 +353,8 @@ func checkC10(c *Ctx) Meta {
 	runErrflow(c, errflowCfg{rule: "C10-ERR", scope: scope, classK: plotErrClass,
 		strict: func(fn *ssa.Function, call *ssa.Call) bool { return true }})
 
+	checkStopReturns(c, "C10-STOP")
+	checkFreshWindow(c, "C10-FRESH")
 	if exec != nil {
 		removes := callsIn(exec, "os.Remove", "os.RemoveAll")
 		pw := callsIn(exec, "(*"+pkgMassDBV1+".MassDBV1).prePlotWork")
@@ -569,6 +573,7 @@ func checkC10(c *Ctx) Meta {
 func checkC07(c *Ctx) Meta {
 	c.Rule("C07-VERIFY", "GetProof returns a non-nil proof only on the success edge of poc.VerifyProof(proof, mdb.pubKeyHash, challenge, filter) applied to the very proof returned", 3)
 	c.Rule("C07-READ", "plotting passes consume reads completely: every io.Reader-shaped Read in the plotting functions is io.ReadFull/ReadAtLeast or has its byte count tested; its error reaches the return", 1)
+	c.Rule("C07-FRESH", "every window of both passes is computed into a freshly allocated (zeroed) cache, so slots the construction leaves empty read as empty", 4)
 	c.Rule("C07-FORWARD", "the keeper forwards proof and error of MassDB.GetProof unchanged and the miner drops entries whose Error is non-nil", 2)
 
 	if f := c.MustFn("C07-VERIFY", "poc/engine/massdb/massdb.v1", "(*MassDBV1).GetProof"); f != nil {
@@ -673,6 +678,7 @@ func checkC07(c *Ctx) Meta {
 	}
 	_ = nRead
 
+	checkFreshWindow(c, "C07-FRESH")
 	// FORWARD: capacity.getProof / miner.getValidProofs
 	if f := c.MustFn("C07-FORWARD", "poc/engine/spacekeeper/capacity", "(*SpaceKeeper).getProof"); f != nil {
 		checkGetProofForward(c, f, "capacity")
@@ -766,5 +772,184 @@ func checkValidFilter(c *Ctx, rule string, f *ssa.Function) {
 		c.Bad(rule, key, c.Pos(f.Pos()), "an element is appended on a path where its Error is not known to be nil")
 	} else {
 		c.OK(rule, key, c.Pos(f.Pos()), "append only behind the Error==nil edge")
+	}
+}
+
+// checkFreshWindow (shared by C10 and C07): every window is computed into a freshly allocated
+// (zeroed) cache — the scan loops rely on untouched slots reading as "no entry".
+func checkFreshWindow(c *Ctx, rule string) {
+	upd := c.MustFn(rule, "poc/engine/massdb/massdb.v1", "(*MemCache).Update")
+	mam := c.MustFn(rule, "poc/engine/massdb/massdb.v1", "makeAvailableMemory")
+	if upd != nil {
+		key := "MemCache.Update:always-reallocates"
+		var mk ssa.Instruction
+		for _, a := range fieldAccesses(upd) {
+			if a.Kind == "store" && a.Field == "data" {
+				if _, ok := a.In.(*ssa.Store).Val.(*ssa.MakeSlice); ok {
+					mk = a.In
+				}
+			}
+		}
+		if mk == nil {
+			c.Bad(rule, key, c.Pos(upd.Pos()), "Update no longer stores a freshly made slice into cache.data")
+		} else {
+			r := reach(upd, nil, nil, func(in ssa.Instruction) bool { return in == mk })
+			bad := false
+			for _, ret := range returnsOf(upd) {
+				if r(ret) {
+					bad = true
+					c.Bad(rule, key, c.Pos(ret.Pos()), "Update can return without allocating a fresh (zeroed) buffer: a window of the same size as the previous one keeps stale records in the slots it does not fill, so the table depends on the memory available")
+				}
+			}
+			if !bad {
+				c.OK(rule, key, c.Pos(mk.Pos()), "every return of Update is preceded by cache.data = make([]byte, size)")
+			}
+		}
+	}
+	if mam != nil {
+		key := "makeAvailableMemory:always-updates-cache"
+		us := callsIn(mam, "(*"+pkgMassDBV1+".MemCache).Update")
+		if len(us) == 0 {
+			c.Bad(rule, key, c.Pos(mam.Pos()), "makeAvailableMemory no longer calls cache.Update")
+		} else {
+			r := reach(mam, nil, nil, func(in ssa.Instruction) bool {
+				cl, ok := in.(*ssa.Call)
+				return ok && isCall(cl, "(*"+pkgMassDBV1+".MemCache).Update")
+			})
+			bad := false
+			for _, ret := range returnsOf(mam) {
+				if isNilErrorReturn(ret) && r(ret) {
+					bad = true
+					c.Bad(rule, key, c.Pos(ret.Pos()), "makeAvailableMemory can succeed without re-creating the cache: the next window is computed over the previous window's contents")
+				}
+			}
+			if !bad {
+				c.OK(rule, key, c.Pos(us[0].Pos()), "every successful return is preceded by cache.Update")
+			}
+		}
+	}
+	for _, name := range []string{"(*MassDBV1).prePlotWork", "(*MassDBV1).plotWork"} {
+		f := c.MustFn(rule, "poc/engine/massdb/massdb.v1", name)
+		if f == nil {
+			continue
+		}
+		key := f.Name() + ":fresh-cache-per-window"
+		ws := callsIn(f, idWTW)
+		// the call (direct or through the local closure) that re-creates the cache
+		isMem := func(in ssa.Instruction) bool {
+			cl, ok := in.(*ssa.Call)
+			if !ok {
+				return false
+			}
+			if strings.HasSuffix(calleeID(cl), "makeAvailableMemory") {
+				return true
+			}
+			for _, callee := range (&c13ctx{}).calleesOf(cl) {
+				if callee.Parent() != nil {
+					found := false
+					allInstrs(callee, func(i2 ssa.Instruction) {
+						if strings.HasSuffix(calleeID(i2), "makeAvailableMemory") {
+							found = true
+						}
+					})
+					if found {
+						return true
+					}
+				}
+			}
+			return false
+		}
+		bad := len(ws) == 0
+		for _, w := range ws {
+			// from one window write round to the next, and from entry to the first
+			if reach(f, w, nil, isMem)(w) || reach(f, nil, nil, isMem)(w) {
+				bad = true
+			}
+		}
+		if bad {
+			c.Bad(rule, key, c.Pos(f.Pos()), "a window can be computed and written without the cache having been re-created since the previous window")
+		} else {
+			c.OK(rule, key, c.Pos(f.Pos()), "every path to a window write passes makeAvailableMemory since the previous write")
+		}
+	}
+}
+
+// checkStopReturns: on the plotting path, the arm taken when the stop channel fires returns a
+// provably non-nil error — an interrupted step must never be taken for a completed one.
+func checkStopReturns(c *Ctx, rule string) {
+	for _, name := range []string{"(*MassDBV1).prePlotWork", "(*MassDBV1).plotWork", "(*MemCache).WriteToWriter"} {
+		f := c.MustFn(rule, "poc/engine/massdb/massdb.v1", name)
+		if f == nil {
+			continue
+		}
+		n := 0
+		for _, fn := range withClosures(f) {
+			allInstrs(fn, func(in ssa.Instruction) {
+				sel, ok := in.(*ssa.Select)
+				if !ok {
+					return
+				}
+				for idx, st := range sel.States {
+					org := chanOrigin(fn, st.Chan)
+					if !(strings.HasSuffix(org, ".stopPlotCh") || org == "param:quit") {
+						continue
+					}
+					n++
+					key := fmt.Sprintf("%s:stop-arm-returns-error#%d", fn.Name(), n)
+					// find `extract sel #0 == idx`
+					var tests []boolTest
+					if refs := sel.Referrers(); refs != nil {
+						for _, r := range *refs {
+							ex, ok := r.(*ssa.Extract)
+							if !ok || ex.Index != 0 {
+								continue
+							}
+							if xr := ex.Referrers(); xr != nil {
+								for _, u := range *xr {
+									if bo, ok := u.(*ssa.BinOp); ok && bo.Op == token.EQL {
+										if k, ok := bo.Y.(*ssa.Const); ok && k.Int64() == int64(idx) {
+											tests = append(tests, boolTestsOf(fn, bo)...)
+										}
+									}
+								}
+							}
+						}
+					}
+					if len(tests) == 0 {
+						c.Unk(rule, key, c.Pos(sel.Pos()), "cannot find the branch taken when the stop channel fires")
+						continue
+					}
+					bad := ""
+					saw := false
+					for _, t := range tests {
+						region := dominatedRegion(fn, t.TrueSucc)
+						for _, ret := range returnsOf(fn) {
+							if !region[ret.Block()] {
+								continue
+							}
+							saw = true
+							last := ret.Results[len(ret.Results)-1]
+							if good, why := provablyNonNilError(fn, last, map[ssa.Value]bool{}); !good {
+								bad = "when the stop channel fires the function " + why + ": the caller treats the interrupted step as completed and records progress for data that was not written"
+							}
+						}
+						for b := range region {
+							for _, s := range b.Succs {
+								if !region[s] {
+									bad = "the stop arm falls through into normal flow instead of returning"
+								}
+							}
+						}
+					}
+					if bad == "" && saw {
+						c.OK(rule, key, c.Pos(sel.Pos()), "stop arm returns a provably non-nil error")
+					} else if bad == "" {
+						c.Bad(rule, key, c.Pos(sel.Pos()), "stop arm does not return")
+					} else {
+						c.Bad(rule, key, c.Pos(sel.Pos()), bad)
+					}
+				}
+			})
+		}
 	}
 }
